@@ -1,3 +1,4 @@
+import Mathlib.Tactic.Ring
 import Lean
 /-! `abstract_apps f`: replace every application `f x` occurring in the goal by a fresh variable (largest terms first),
 so that arithmetic normalisation (`field_simp`, `ring`) treats `np.matmul(d_d_varphi, ·)` results as atoms and
@@ -26,3 +27,10 @@ elab "abstract_apps " f:term : tactic => withMainContext do
   let args : Array GeneralizeArg := apps.map fun e => { expr := e }
   let (_, g) ← goal.generalize args
   replaceMainGoal [g]
+
+/-- closes `f a₁ … = f b₁ …` goals whose arguments agree up to ring normalisation (the generated definitions are
+re-derived from the source on every run: an algebraically equivalent spelling of a formula must not break a proof
+whose content is "this attribute is that function of those quantities") -/
+syntax "ring_congr" : tactic
+macro_rules
+  | `(tactic| ring_congr) => `(tactic| first | rfl | ring | (congr 1 <;> ring_congr))
